@@ -23,6 +23,9 @@ pub enum RgPlan {
         dot: bool,
         to_file: bool,
         rng_seed: u64,
+        /// `fs-stale-output`: the -o file already exists with this many lines of older content
+        #[serde(default)]
+        stale: usize,
     },
     Convert {
         edges: Vec<(String, String)>,
@@ -30,6 +33,8 @@ pub enum RgPlan {
         colors: Option<usize>,
         dot: bool,
         to_file: bool,
+        #[serde(default)]
+        stale: usize,
     },
 }
 
@@ -69,6 +74,7 @@ pub fn gen_plan(rng: &mut Prng) -> RgPlan {
             dot: rng.chance(1, 4),
             to_file: rng.chance(1, 3),
             rng_seed: rng.next_u64() >> 1,
+            stale: if rng.chance(1, 3) { rng.range(1, 120) } else { 0 },
         }
     } else {
         let nv = rng.range(2, 5);
@@ -104,6 +110,7 @@ pub fn gen_plan(rng: &mut Prng) -> RgPlan {
             colors: if rng.chance(3, 5) { Some(rng.range(0, 3)) } else { None },
             dot: rng.chance(1, 6),
             to_file: rng.chance(1, 3),
+            stale: if rng.chance(1, 3) { rng.range(1, 120) } else { 0 },
         }
     }
 }
@@ -245,11 +252,17 @@ fn args_of(plan: &RgPlan, dir: &PathBuf, force_dot: Option<bool>) -> (Vec<String
             colors,
             dot,
             to_file,
+            ..
         } => {
             let input = dir.join("in.csv");
             let mut s = String::new();
-            for (x, y) in edges {
-                s.push_str(&format!("{x},{y}\n"));
+            for (i, (x, y)) in edges.iter().enumerate() {
+                // every third row of some inputs uses CSV quoting; the logical fields are the same
+                if edges.len() % 2 == 1 && i % 3 == 0 {
+                    s.push_str(&format!("\"{x}\",\"{y}\"\n"));
+                } else {
+                    s.push_str(&format!("{x},{y}\n"));
+                }
             }
             std::fs::write(&input, s).expect("tmpfs write");
             a.push("--convert".into());
@@ -271,6 +284,13 @@ fn args_of(plan: &RgPlan, dir: &PathBuf, force_dot: Option<bool>) -> (Vec<String
                 outfile = Some(p);
             }
         }
+    }
+    let stale = match plan {
+        RgPlan::Gen { stale, .. } | RgPlan::Convert { stale, .. } => *stale,
+    };
+    if let (Some(p), true) = (&outfile, stale > 0) {
+        let old: String = (0..stale).map(|i| format!("v9{i},v8{i}\n")).collect();
+        std::fs::write(p, old).expect("tmpfs write");
     }
     (a, outfile)
 }
@@ -409,8 +429,12 @@ pub fn execute(plan: &RgPlan) -> RunOutcome {
                 complete,
                 dot,
                 to_file,
+                stale,
                 ..
             } => {
+                if *to_file && *stale > 0 {
+                    bump(&mut stats, "fault.fs-stale-output");
+                }
                 bump(&mut stats, &format!("probe.flags.u{}_complete{}_dot{}_file{}", *undirected as u8, *complete as u8, *dot as u8, *to_file as u8));
                 let vv = v.unwrap_or(0);
                 let max = if *undirected { vv * vv.saturating_sub(1) / 2 } else { vv * vv.saturating_sub(1) };
@@ -487,7 +511,10 @@ pub fn execute(plan: &RgPlan) -> RunOutcome {
                         if first.sp.stderr.is_empty() {
                             vs.push(viol("G2", "silent", "refused without a message on stderr".into()));
                         }
-                        if !first.sp.stdout.is_empty() || (first.file_created && !first.output.is_empty()) {
+                        // an output file that existed before a refused request may keep its old content
+                        let old: String = if *to_file { (0..*stale).map(|i| format!("v9{i},v8{i}\n")).collect() } else { String::new() };
+                        let file_touched = first.file_created && !first.output.is_empty() && first.output != old.as_bytes();
+                        if !first.sp.stdout.is_empty() || file_touched {
                             vs.push(viol("G2", "partial-output", "refused, but edges were written".into()));
                         }
                     }
@@ -587,7 +614,9 @@ pub fn minimise(plan: &RgPlan, v: &Violation) -> (RgPlan, Violation) {
                 dot,
                 to_file,
                 rng_seed,
+                stale,
             } => {
+                let st = *stale;
                 let mk = |v: Option<usize>, e: Option<usize>, u: bool, c: bool, d: bool, f: bool, s: u64| RgPlan::Gen {
                     v,
                     e,
@@ -596,7 +625,20 @@ pub fn minimise(plan: &RgPlan, v: &Violation) -> (RgPlan, Violation) {
                     dot: d,
                     to_file: f,
                     rng_seed: s,
+                    stale: if f { st } else { 0 },
                 };
+                if st > 1 {
+                    cands.push(RgPlan::Gen {
+                        v: *v,
+                        e: *e,
+                        undirected: *undirected,
+                        complete: *complete,
+                        dot: *dot,
+                        to_file: *to_file,
+                        rng_seed: *rng_seed,
+                        stale: 0,
+                    });
+                }
                 if *to_file {
                     cands.push(mk(*v, *e, *undirected, *complete, *dot, false, *rng_seed));
                 }
@@ -629,6 +671,7 @@ pub fn minimise(plan: &RgPlan, v: &Violation) -> (RgPlan, Violation) {
                 colors,
                 dot,
                 to_file,
+                stale,
             } => {
                 for i in 0..edges.len() {
                     let mut e2 = edges.clone();
@@ -639,6 +682,7 @@ pub fn minimise(plan: &RgPlan, v: &Violation) -> (RgPlan, Violation) {
                         colors: *colors,
                         dot: *dot,
                         to_file: *to_file,
+                        stale: *stale,
                     });
                 }
                 if *to_file || *dot {
@@ -648,6 +692,7 @@ pub fn minimise(plan: &RgPlan, v: &Violation) -> (RgPlan, Violation) {
                         colors: *colors,
                         dot: false,
                         to_file: false,
+                        stale: 0,
                     });
                 }
                 if let Some(k) = colors {
@@ -658,6 +703,7 @@ pub fn minimise(plan: &RgPlan, v: &Violation) -> (RgPlan, Violation) {
                             colors: Some(k - 1),
                             dot: *dot,
                             to_file: *to_file,
+                            stale: *stale,
                         });
                     }
                 }
